@@ -75,6 +75,8 @@ type Net struct {
 	OnConnect func(c *Conn)
 	// Wake tells the simulator that the client produced output (bytes, a dial, a close).
 	Wake func()
+	// CloseErrAll makes the first Close of every connection report an error.
+	CloseErrAll bool
 
 	mu       sync.Mutex
 	ordinals map[string]int
@@ -186,6 +188,8 @@ type Conn struct {
 	Name string // "<ip>#<per-host dial ordinal>"
 	Host string
 	net  *Net
+	// CloseErr makes the (first) Close of this connection report an error.
+	CloseErr bool
 
 	raddr, laddr *net.TCPAddr
 
@@ -401,11 +405,17 @@ func (c *Conn) Close() error {
 		return &net.OpError{Op: "close", Net: "tcp", Addr: c.raddr, Err: net.ErrClosed}
 	}
 	c.clientClosed = true
+	fail := c.CloseErr || c.net.CloseErrAll
 	c.mu.Unlock()
 	c.net.Rec("client-close %s", c.Name)
 	c.net.Wake()
 	wake(c.rdWake)
 	wake(c.wrWake)
+	if fail {
+		// the connection is closed all the same; the caller is told that closing it was not
+		// clean (what tls.Conn.Close reports when the peer is gone and close_notify fails)
+		return &net.OpError{Op: "close", Net: "tcp", Addr: c.raddr, Err: syscall.EPIPE}
+	}
 	return nil
 }
 
